@@ -248,6 +248,8 @@ def get_attr(self, base, name, fr, node=None):
     if name in ('real', 'imag'):
         return T.mk_call(name, [base])
     if name == 'shape' and ci is None:
+        if at is not None and at.kind in ('loopvar', 'after') and len(at.args) == 2 and (at.args[0], at.args[1]) in self.loop_shape:
+            return self.get_attr(self.loop_shape[(at.args[0], at.args[1])], 'shape', fr, node)
         return shape_of(base)
     if name in ('unix', 'mjd') and at is not None and at.kind == 'call' and at.args[0] == 'Time':
         args, kw = at.args[1], dict(at.args[2])
